@@ -99,7 +99,7 @@ func guarded(f func()) (problem string) {
 				return
 			}
 			if !finished {
-				done <- "fatal: " + strings.Join(lastFatal(), "; ")
+				done <- "fatal: " + strings.Join(lastFatal14(), "; ")
 				return
 			}
 			done <- ""
@@ -130,7 +130,7 @@ func protected(f func()) (problem string) {
 // the queries whose code path contains a log.Fatal (unknown rank label, unknown taxid)
 var c14MayFatal = map[string]bool{"seq_restrict": true, "seq_hasrank": true, "seq_atrank": true, "seq_path": true}
 
-func lastFatal() []string {
+func lastFatal14() []string {
 	m := fatalMessages()
 	if len(m) > 2 {
 		m = m[len(m)-2:]
